@@ -242,6 +242,23 @@ def rules(ctx: Ctx) -> None:
         why = f"the returned value `{u(rets[0].value)[:50]}` is not a list built by one append per statement segment"
     ctx.ob("R05.4", "tsql-splitter:one-entry-per-segment-in-order", ok_t, stsql.loc(), "split_tsql returns one entry per statement segment (repeats included), in order" + (f" - {why}" if why else ""))
 
+    # the splitter is chosen by the mode alone: in T-SQL no-semicolon mode the whole text goes to the parser-based splitter, whatever the
+    # text looks like (a script mixing `;` and newline-separated statements has more than one `;`-piece and still needs it)
+    R_ = common.runner(prog)
+    evf = R_.evaluator
+    from ..cfg import controlling_facts
+
+    calls = [k for k in prog.walk_fn(evf) if isinstance(k, ast.Call) and isinstance(k.func, ast.Attribute) and k.func.attr == stsql.name]
+    ctx.floor("calls of the T-SQL splitter in the evaluator", len(calls), 1)
+    for k in calls:
+        facts = set(flow(prog, evf).facts_for(k)) | set(controlling_facts(prog.parents, k))
+        foreign = sorted(t for t, p in facts if not ("TSQL_NO_SEMICOLON" in t or "dialect" in t.lower()))
+        mode = any("TSQL_NO_SEMICOLON" in t and p for t, p in facts) and any("tsql" in t and "dialect" in t.lower() and p for t, p in facts)
+        ctx.ob("R05.4", "tsql-splitter:chosen-by-the-mode-alone", mode and not foreign, loc(evf.mod, k),
+               "the parser-based splitter is used exactly when the no-semicolon mode is on and the dialect is tsql" + (f"; it also depends on `{foreign[0]}`" if foreign else ""))
+        arg_ok = bool(k.args) and any(isinstance(x, ast.Attribute) and x.attr == "_sql" or isinstance(x, ast.Name) and x.id in evf.params() for x in prog.influences(evf, k.args[0]))
+        ctx.ob("R05.4", "tsql-splitter:gets-the-whole-text", arg_ok, loc(evf.mod, k), f"`{u(k)[:60]}` splits the runner's whole input text")
+
     # ---- R05.3 independence -------------------------------------------------------------------
     bases = [prog.try_cls("extractors.base.BaseExtractor"), prog.try_cls("handlers.base.NextTokenBaseHandler"), prog.try_cls("handlers.base.CurrentTokenBaseHandler")]
     if any(b is None for b in bases):
